@@ -11,7 +11,7 @@ EXTENDS JournalOps
 CONSTANTS Acct,       \* account names
           KindsOf,    \* [Acct -> set of setter kinds transactions can issue on that account]
           BaseSet,    \* set of committed parent states [Acct -> account record]
-          MaxSteps, MaxSnap, FreeVals,
+          MaxSteps, MaxSnap, FreeVals, WithSeal,
           Dv
 Z == "Z"              \* the zero root
 VARIABLES st,         \* [Acct -> account record]              the live accounts (Manager.accountCache)
@@ -22,14 +22,17 @@ VARIABLES st,         \* [Acct -> account record]              the live accounts
           nextId,     \*                                       LogProcessor.nextRevisionId
           saved,      \* history: saved[id + 1] = st when Snapshot returned id
           dead,       \* RevertToSnapshot panicked
+          sealed,     \* the block is finished: logs merged and published, accounts finalised
+          redo,       \* the state RebuildAll derives from the published logs and the parent state
           steps
-vars == <<st, base, journal, ver, revs, nextId, saved, dead, steps>>
+vars == <<st, base, journal, ver, revs, nextId, saved, dead, sealed, redo, steps>>
 
 Types == {LogType(k) : k \in UNION {KindsOf[a] : a \in Acct}}
 Init == /\ base \in BaseSet /\ st = base
         /\ journal = <<>> /\ revs = <<>> /\ nextId = 0 /\ saved = <<>> /\ dead = FALSE /\ steps = 0
+        /\ sealed = FALSE /\ redo = <<>>
         /\ ver = [a \in Acct |-> [t \in Types |-> 0]]
-Step == ~dead /\ steps < MaxSteps /\ steps' = steps + 1
+Step == ~dead /\ ~sealed /\ steps < MaxSteps /\ steps' = steps + 1
 
 \* value domains of the setter kinds and the one value the enumeration writes next (FreeVals: any value)
 Dom(k) == CASE k \in {"bal", "s1", "s2", "asup", "votes"} -> 0..2
@@ -67,13 +70,13 @@ Set(a, k, v) ==
   /\ ver' = [ver EXCEPT ![a][LogType(k)] = @ + 1]
   /\ journal' = Append(journal, [a |-> a, k |-> k, old |-> OldOf(st[a], k), new |-> v, n |-> ver[a][LogType(k)] + 1])
   /\ st' = [st EXCEPT ![a] = Effect(@, k, v, Z)]
-  /\ UNCHANGED <<base, revs, nextId, saved, dead>>
+  /\ UNCHANGED <<base, revs, nextId, saved, dead, sealed, redo>>
 
 Snapshot ==
   /\ Step /\ Len(revs) < MaxSnap
   /\ revs' = Append(revs, [id |-> nextId, idx |-> Len(journal)])
   /\ saved' = Append(saved, st) /\ nextId' = nextId + 1
-  /\ UNCHANGED <<st, base, journal, ver, dead>>
+  /\ UNCHANGED <<st, base, journal, ver, dead, sealed, redo>>
 
 Revert(i) ==
   /\ Step /\ i \in 1..Len(revs)
@@ -83,11 +86,20 @@ Revert(i) ==
           /\ journal' = SubSeq(journal, 1, revs[i].idx)
           /\ revs' = SubSeq(revs, 1, i - 1)
           /\ dead' = FALSE
-  /\ UNCHANGED <<base, ver, nextId, saved>>
+  /\ UNCHANGED <<base, ver, nextId, saved, sealed, redo>>
+
+\* the block is finished (MergeChangeLogs, Finalise); a node that only has the parent state and the published logs
+\* replays them (RebuildAll)
+Seal ==
+  /\ ~dead /\ ~sealed /\ WithSeal
+  /\ sealed' = TRUE
+  /\ redo' = Redone(base, journal, Z, Dv)
+  /\ UNCHANGED <<st, base, journal, ver, revs, nextId, saved, dead, steps>>
 
 Next == \/ \E a \in Acct, k \in UNION {KindsOf[x] : x \in Acct} : \E v \in Dom(k) : Set(a, k, v)
         \/ Snapshot
         \/ \E i \in 1..MaxSnap : Revert(i)
+        \/ Seal
 Spec == Init /\ [][Next]_vars
 
 \* ---- the clauses of C07 (revert part) ----
@@ -102,4 +114,6 @@ RevsOK == /\ \A i \in 1..Len(revs) : revs[i].idx <= Len(journal) /\ revs[i].id <
 \* a discarded transaction leaves no trace: undoing the whole journal yields the committed state
 \* (events: the journal holds the block's events; the count in the account is part of the record)
 DiscardAllIsBase == ~dead => UndoFrom(st, journal, 0, base, Z, Dv) = base
+\* ---- the clause of C07 about redo: replaying the published logs on the parent state gives the executed state
+RedoEqualsExec == sealed => redo = st
 ====
